@@ -176,6 +176,8 @@ pub fn c19_inputs() {
     std::mem::forget(s1);
     std::mem::forget(s2);
 }
+// not registered: hashing two names into the real HashMap does not finish within 3000 s (11 GB); order independence of
+// inputs is the Verus lemma in specs/88_builder.vrs
 #[cfg(kani)]
 #[kani::proof]
 #[kani::unwind(12)]
